@@ -259,9 +259,9 @@ CHECKS = {
             "max_paths": {"quick": 60000, "thorough": 400000},
             "covers": {"VerifC20PeersDiff": ["diffed"], "VerifC20SelfFilter": ["drained"]},
         }, {
-            "pkg": OOO, "funcs": ["VerifC20ChannelID", "VerifC20Monitor"],
-            "params": {"quick": {"L": 2, "M": 3}, "thorough": {"L": 3, "M": 5}},
-            "covers": {"VerifC20ChannelID": ["symmetric", "distinct"], "VerifC20Monitor": ["monitored"]},
+            "pkg": OOO, "funcs": ["VerifC20ChannelID", "VerifC20Monitor", "VerifC20ConnectRace"],
+            "params": {"quick": {"L": 2, "M": 3, "P": 1}, "thorough": {"L": 3, "M": 5, "P": 2}},
+            "covers": {"VerifC20ChannelID": ["symmetric", "distinct"], "VerifC20Monitor": ["monitored"], "VerifC20ConnectRace": ["connected"]},
         }, {
             "pkg": DC, "funcs": ["VerifC20FrameRoundTrip", "VerifC12RawFrame"],
             "params": {"quick": {"L": 3, "B": 11}, "thorough": {"L": 6, "B": 12}},
@@ -271,6 +271,7 @@ CHECKS = {
         "assumptions": [
             "membership: every sequence of S duplicate-free snapshots over P peers whose ids are symbolic pairwise-distinct strings, returned by a scripted coreiface PubSub().Peers()",
             "messages: M scripted messages, each from the local peer or a remote one, 1 symbolic byte body; the real WatchMessages / monitorTopic goroutines run in the interpreter",
+            "pairwise channel registration: two overlapping Connect calls for the same peer under every schedule with at most P preemptions (the subscribe call is a preemption point); timers run on virtual time (they fire only when nothing else can run)",
             "channel names: peer ids are symbolic strings of length L without '/'; sort.Slice is a stable insertion sort over the real less closure",
             "frames: payloads of 0..L symbolic bytes through the real Send -> varint -> handleNewPeer path over a byte-pipe stream stub; plus ANY raw stream of 0..B bytes",
         ],
